@@ -34,9 +34,33 @@ def findings_table():
     return "\n".join(rows)
 
 
+def theorem_count(prop):
+    """number of `theorem`s in lean/TraitsVerif/Props/<prop>.lean (comments stripped) = audited obligations"""
+    path = os.path.join(VERIF, "lean", "TraitsVerif", "Props", prop + ".lean")
+    if not os.path.exists(path):
+        return None
+    src = re.sub(r"/-.*?-/", "", open(path).read(), flags=re.S)
+    src = re.sub(r"--.*", "", src)
+    return len(re.findall(r"^\s*theorem\s+", src, flags=re.M))
+
+
+def patch_counts(s):
+    """keep the `N obligations` figure in each as-built paragraph `**Cxx** (…` of §10.2 current"""
+    for n in range(1, 21):
+        prop = "C%02d" % n
+        cnt = theorem_count(prop)
+        m = re.search(r"^\*\*%s\*\* \(" % prop, s, flags=re.M)
+        if cnt is None or not m:
+            continue
+        seg = s[m.start():m.start() + 900]
+        seg2 = re.sub(r"(\d+)(\s+)obligations", lambda mm: "%d%sobligations" % (cnt, mm.group(2)), seg, count=1)
+        s = s[:m.start()] + seg2 + s[m.start() + 900:]
+    return s
+
+
 def main():
     p = os.path.join(VERIF, "DESIGN.md")
-    s = open(p).read()
+    s = patch_counts(open(p).read())
     for name, text in (("SEEDED", seeded_table()), ("FINDINGS", findings_table())):
         b, e = "<!-- BEGIN %s -->" % name, "<!-- END %s -->" % name
         if b in s:
